@@ -117,7 +117,7 @@ func RunFamily(f *Family, o RunOpts) int {
 			agg.harnessErr = st.HarnessError
 		}
 		for _, tr := range st.SampleTrace {
-			if len(tr) > 6 && tr[:6] == "NONDET" && agg.extra["nondet_printed"] < 5 {
+			if len(tr) > 6 && (tr[:6] == "NONDET" || tr[:5] == "PANIC") && agg.extra["nondet_printed"] < 5 {
 				agg.extra["nondet_printed"]++
 				fmt.Fprintf(os.Stderr, "%s: %s\n", st.Scenario, tr)
 			}
@@ -175,6 +175,9 @@ func RunFamily(f *Family, o RunOpts) int {
 	known := rep.KnownHits()
 	if len(known) > 0 {
 		cov["known_finding_hits"] = known
+	}
+	if agg.extra["cycles_panicked"] > 0 {
+		fmt.Printf("NOTE: the real scheduler panicked in %d explored cycles (recovered; oracles applied to the decisions emitted before the crash)\n", agg.extra["cycles_panicked"])
 	}
 	code := rep.Finish()
 	ev := &engine.Evidence{PropertyID: f.Property, Tier: o.Tier, Seed: engine.SeedFromEnv(), Level: o.Level,
